@@ -127,26 +127,31 @@ def run(cx):
         st = [m for m in b.mutations() if m.kind == 'store' and m.elem]
         edge_acc = half = False
         diag = set()
+        roots = {}      # the two accumulators are told apart by what is stored in them, not by their names
         for m in st:
             tgt = simplify(dag.local(m.data['pl']['l'], m.bb, m.idx))
             val = simplify(dag.rvalue(m.data['rv'], m.bb, m.idx))
             nm = b.local_name(m.root)
             e = match('(add _ (index (field 1 $pair) (field 0 $en)))', val)
             t = match('(index _ (field 1 $en))', tgt)
-            if nm == 'values' and e and t and e['en'] == t['en'] and find('(call Iterator::enumerate _)', e['en']) is not None and find('(call Iterator::zip (param face_edges) _)', e['pair']) is not None:
+            if e and t and e['en'] == t['en'] and find('(call Iterator::enumerate _)', e['en']) is not None and find('(call Iterator::zip (param face_edges) _)', e['pair']) is not None:
                 edge_acc = True
-            if nm == 'values' and match('(mul 0.5 _)', val) is not None:
+                roots.setdefault('values', set()).add(m.root)
+            if match('(mul 0.5 _)', val) is not None:
                 half = True
+                roots.setdefault('values', set()).add(m.root)
             d = match('(index _ (index (field 0 (itervar (call Iterator::zip (param edges) _))) $k))', tgt)
-            if nm == 'diagonals' and d and match('(add _ (field 1 (itervar (call Iterator::zip (param edges) _))))', val) is not None:
+            if d and match('(add _ (field 1 (itervar (call Iterator::zip (param edges) _))))', val) is not None:
                 diag.add(d['k'][1])
+                roots.setdefault('diagonals', set()).add(m.root)
         trip = [cx.call(s) for s in b.calls('Triplet::new')]
         off = [t for t in trip if match('(call Triplet::new (index $e $a) (index $e $b) (neg _))', t) is not None]
         sym = set()
         for t in off:
             e = match('(call Triplet::new (index $e $a) (index $e $b) (neg _))', t)
             sym.add((e['a'][1], e['b'][1]))
-        cx.ob('EXPR', 'cotan_laplacian_triplets', cot_ok and edge_acc and half and diag == {0, 1} and sym == {(0, 1), (1, 0)},
+        distinct = len(roots.get('values', ())) == 1 and len(roots.get('diagonals', ())) == 1 and roots['values'] != roots['diagonals']
+        cx.ob('EXPR', 'cotan_laplacian_triplets', cot_ok and edge_acc and half and distinct and diag == {0, 1} and sym == {(0, 1), (1, 0)},
               'cot(angle j) is added to face_edges[j] (same j), the sums are halved, each edge weight is added to the diagonal of BOTH end vertices, and -w is emitted at (e0,e1) and (e1,e0)',
               where=b.file, found=f'cot={cot_ok} edge={edge_acc} half={half} diag={sorted(diag)} offdiag={sorted(sym)}')
     # ---------------------------------------------------------------- the 2x2 inverse used by the boundary fit
